@@ -72,7 +72,7 @@ class ObjModel(object):
         m.input_ordered = True
         fo = st.folder()
         for k in self.accepted:
-            s = metric_slot(k)
+            s = getattr(self, "slot_rename", {}).get(k, metric_slot(k))
             pres = Fin((s,), dict(((x,), x is not ABSENT) for x in self.space.dom[s]))
             val = Fin((s,), dict(((x,), x) for x in self.space.dom[s]))
             m.set(k, fo.restrict(pres), fo.restrict(val))
@@ -88,6 +88,33 @@ class ObjModel(object):
                 Fin(("minor",), dict(((x,), x) for x in self.space.dom["minor"]))
             )
         return Const(None)
+
+    def second_instance(self, k, pins=None):
+        """A second object in the same state that differs from the first in metric k only: its
+        metric k is a fresh slot 'o:<k>' with the same domain, every other metric is shared.  The
+        whole constructor is interpreted for it.  Returns (state, reference) or None when the
+        constructor cannot complete."""
+        from .interp import Inst
+
+        s = metric_slot(k)
+        o = "o:" + k
+        if o not in self.space.dom:
+            self.space.add(o, self.space.dom[s])
+        st = self.st.copy()
+        for ps, vals in (pins or {}).items():
+            st.dom[ps] = tuple(x for x in self.space.dom[ps] if x in vals)
+        ref = self.ev.alloc(st, Inst(self.cls))
+        init = self.cls.methods["__init__"]
+        self.slot_rename = {k: o}
+        n_ev = len(self.ev.events)
+        try:
+            self.ev.inline(st, init, None, [ref, Opaque("vector2", ["vector2"])], {}, init.node, self.module)
+        except Dead:
+            return None
+        finally:
+            self.slot_rename = {}
+            del self.ev.events[n_ev:]
+        return st, ref
 
     def construct(self):
         init = self.cls.methods["__init__"]
